@@ -97,7 +97,7 @@ def judge(target, text, data, decoded):
     b = L.norm_ref(target, decoded)
     if b is None:
         return "unverifiable", "reference text not interpreted", None
-    diff = L.compare(a, b)
+    diff = L.compare(a, b, strict=target in L.STRICT_FAMILIES)
     if diff is None:
         return "ok", None, None
     if diff[0] == "shape":
@@ -266,6 +266,9 @@ def explain(desc, text, data, diff):
             if fam == "arm" and (x[1], y[1]) == (0, 32) and _has_ctor(desc["args"], ("ShiftLsr", "ShiftAsr"), 0):
                 return KF_ARM_SHIFT0
             if _imm_alias(desc, data, x[1], y[1]) or _truncated(_printed_ints(desc), y[1]):
+                return KF_IMM_ALIAS
+        if x[0] == "a" and y[0] == "a" and x[1:3] == y[1:3] and isinstance(x[3], int) and isinstance(y[3], int):
+            if _imm_alias(desc, data, x[3], y[3], widths=(0, 8, 16, 32)) or _truncated(_printed_ints(desc), y[3]):
                 return KF_IMM_ALIAS
         if x[0] == "m" and y[0] == "m" and x[1:4] == y[1:4]:
             if _imm_alias(desc, data, x[4], y[4], widths=(0, 64)) or _truncated(_printed_ints(desc), y[4]):
